@@ -1149,7 +1149,7 @@ def real_variants(ctx, rng):
         if ctx.thorough:
             picks = range(bits)                         # every single-bit flip
         else:
-            k = max(8, ctx.scale(100, 100) * bits // sum(FIELD_BITS.values()))
+            k = max(8, 300 * bits // sum(FIELD_BITS.values()))
             picks = sorted(rng.sample(range(bits), min(k, bits)))
         for i in picks:
             out += field_variants(field, {"flip": i})
@@ -1159,13 +1159,18 @@ def real_variants(ctx, rng):
 def sym_variants(ctx, rng):
     out = []
     for field in ("pub", "enc", "ident", "sig"):
-        for _ in range(ctx.scale(3, 10)):
+        for _ in range(ctx.scale(6, 20)):
             out += field_variants(field, {"flip": rng.randrange(8 * 32)})
-        for _ in range(ctx.scale(2, 6)):
+        for _ in range(ctx.scale(4, 12)):
             out += field_variants(field, {"trunc": rng.randrange(32)})
+    # equivalent encodings of the honest reply, combined (accept side of the decision)
+    for a in ACCEPTABLE[1:]:
+        for b in ACCEPTABLE[1:]:
+            if set(a) != set(b):
+                out.append(dict(a, **b))
     # combinations of two independent alterations
     pool = STRUCTURAL + ACCEPTABLE[1:]
-    for _ in range(ctx.scale(30, 120)):
+    for _ in range(ctx.scale(150, 600)):
         a, b = rng.choice(pool), rng.choice(pool)
         merged = dict(a)
         merged.update(b)
@@ -1222,7 +1227,7 @@ def run_symbolic(ctx, only=None):
         variants = ACCEPTABLE + STRUCTURAL + sym_variants(ctx, rng)
         todo = []
         for t in TRANSPORTS:
-            for v in variants + M4_VARIANTS[t]:
+            for v in variants + M4_VARIANTS[t] + [dict(a, **m) for a in ACCEPTABLE[1:3] for m in M4_VARIANTS[t]]:
                 todo.append((t, v, w))
     cases = []
     with Bench("sym") as bench:
